@@ -1,7 +1,7 @@
 """C11 - Editing operations change only what they document and preserve everything else (structural clauses)."""
 from __future__ import annotations
 
-from . import lib_py, lib_schema, lib_guards
+from . import lib_py, lib_schema, lib_guards, lib_module
 from sa.schema import load_schemas
 
 LEVEL = "other"
@@ -21,3 +21,6 @@ def run(ctx):
     lib_py.unused_params(ctx, py, mods=("trees", "tables", "util", "intervals"))
     lib_schema.argname(ctx, P)
     lib_schema.row_forwarding(ctx, P)
+    lib_py.half_open(ctx, py)
+    lib_module.bytes_length(ctx, P)
+    lib_module.parsed_used(ctx, P)
